@@ -5,11 +5,14 @@ import (
 	"errors"
 	"fmt"
 	"hash"
+	"io"
 	"io/fs"
 	"math"
 	"math/rand/v2"
+	"os"
 	"reflect"
 	"strings"
+	"sync/atomic"
 	"syscall"
 	"time"
 
@@ -197,6 +200,7 @@ func (s *c07Sweep) callAll(r *rand.Rand, tg c07Target, vfs avfs.VFS, files []avf
 			if len(*hist) > 30 {
 				*hist = (*hist)[len(*hist)-30:]
 			}
+			c07Log(call)
 			verdict, detail := c07Invoke(meth.Func, args)
 			s.called[key] = true
 			s.c.Rep.Case(fmt.Sprintf("%s|%s", key, verdict), true)
@@ -212,6 +216,47 @@ func (s *c07Sweep) callAll(r *rand.Rand, tg c07Target, vfs avfs.VFS, files []avf
 		}
 	}
 	return true
+}
+
+// The call in progress of the sequential parts, for the CPU-time watcher: a call that loops without reaching a lock
+// site (no hook sees it) shows as process CPU time consumed with the call counter standing still.
+var (
+	c07Calls   atomic.Int64
+	c07Cur     atomic.Pointer[string]
+	c07Watched atomic.Bool
+)
+
+// c07Guard caps the address space of the worker (a call that allocates without end dies as a Go "out of memory"
+// fatal error with its stack, which the driver attributes, instead of taking the host down) and starts the watcher.
+func c07Guard(c *rt.Ctx) {
+	lim := syscall.Rlimit{Cur: 24 << 30, Max: 24 << 30}
+	_ = syscall.Setrlimit(syscall.RLIMIT_AS, &lim)
+	start := "start"
+	c07Cur.Store(&start)
+	c07Watched.Store(true)
+	rt.CPUWatch(40, func() int64 {
+		if !c07Watched.Load() {
+			return time.Now().UnixNano() // parts that are not made of short sequential calls are not watched
+		}
+		return c07Calls.Load()
+	}, func() string { return *c07Cur.Load() }, func(desc string) {
+		name := desc
+		if i := strings.IndexByte(name, '('); i > 0 {
+			name = name[:i]
+		}
+		c.Disagree(name+"|never-returns(cpu-loop)", "a call of the sequential sweep consumed more than 40 s of CPU time without returning or reaching a lock site (calls on these trees take microseconds): "+desc, map[string]any{"call": desc})
+		c.EmitAndExit()
+	})
+}
+
+// c07Log writes the call about to be made to the worker's standard output when VERIF_C07_LOG is set: a call that
+// takes the whole process down (memory exhaustion) is then the last line of the worker's output.
+func c07Log(call string) {
+	c07Cur.Store(&call)
+	c07Calls.Add(1)
+	if os.Getenv("VERIF_C07_LOG") != "" {
+		fmt.Println("CALL " + call)
+	}
 }
 
 func c07Show(a reflect.Value) string {
@@ -347,6 +392,116 @@ func c07Instance(r *rand.Rand, which int) (string, avfs.VFS) {
 	}
 }
 
+// c07SweepOne sweeps one instance: its own methods, those of handles opened on it, the generic helpers.
+func c07SweepOne(s *c07Sweep, c *rt.Ctx, r *rand.Rand, i int, name string, v avfs.VFS) {
+	var hist []string
+	if !s.callAll(r, c07Target{name: name, v: reflect.ValueOf(v)}, v, nil, c.Pick(3, 4), &hist) {
+		return
+	}
+	var files []avfs.File
+	targets := c07Handles(name, v)
+	for _, tg := range targets {
+		if f, ok := tg.v.Interface().(avfs.File); ok {
+			files = append(files, f)
+		}
+	}
+	okAll := true
+	for _, tg := range targets {
+		if !s.callAll(r, tg, v, files, c.Pick(3, 4), &hist) {
+			okAll = false
+			break
+		}
+	}
+	if okAll {
+		c07Helpers(s, r, name, v, &hist)
+	}
+	if i%9 == 8 {
+		idm := memidm.New()
+		s.callAll(r, c07Target{name: "MemIdm", v: reflect.ValueOf(idm)}, v, nil, 6, &hist)
+		if u, err := idm.AddUser("x", "root"); err == nil {
+			s.callAll(r, c07Target{name: "MemUser", v: reflect.ValueOf(u)}, v, nil, 1, &hist)
+		}
+	}
+}
+
+// c07WinPaths is the hostile path domain of the Windows-typed instances: drive-absolute, drive-relative, rooted without
+// drive, UNC, device and verbatim prefixes, volumes that do not exist, both separators, reserved names.
+var c07WinPaths = []string{"", ".", "..", `\`, `/`, `C:`, `C:\`, `C:/`, `c:\w`, `C:\w`, `C:\w\a`, `C:\w\a\b`, `C:\w\a\..`, `C:\w\a\b\c`, `C:\w\f`, `C:\w\f\x`, `C:w`, `C:w\a`, `C:..`,
+	`\w`, `\w\a`, `/w/a`, `C:/w/a`, `C:\w/a`, `w`, `w\a`, `.\w\a`, `..\w`, `C:\w\..\..`, `C:\w\\a`, `C:\w\a\`, `D:`, `D:\`, `D:\x`, `D:\x\y`, `D:x`, `E:\`, `E:\f`, `Z:\`, `1:\`, `::`, `C::`,
+	`\\host\share`, `\\host\share\`, `\\host\share\x`, `\\host`, `\\`, `\\\`, `\\.\C:`, `\\.\C:\w`, `\\?\C:\w`, `\\?\UNC\host\share\x`, `\??\C:\w`, `//host/share/x`, `\\.\nul`,
+	"C:\\w\\\x00", `con`, `C:\w\nul`, `C:\w\` + strings.Repeat("n", 300), `C:` + strings.Repeat(`\d`, 200), "*", `C:\w\*`, "[", `C:\w\[`, `C:\*\*`, `D:\*`, "x*y", `a\b`, `C:\tmp`, `C:\Users`}
+
+func c07WinInstance(r *rand.Rand, which int) (string, avfs.VFS) {
+	mk := func(fsType string) avfs.VFS {
+		var v avfs.VFS
+		if fsType == "OrefaFS" {
+			v = orefafs.NewWithOptions(&orefafs.Options{OSType: avfs.OsWindows})
+		} else {
+			v = memfs.NewWithOptions(&memfs.Options{OSType: avfs.OsWindows})
+		}
+		_ = v.MkdirAll(`C:\w\a\b`, 0o755)
+		_ = v.WriteFile(`C:\w\f`, []byte("0123456789"), 0o644)
+		_ = v.MkdirAll(`C:\base\w\a`, 0o755)
+		_ = v.WriteFile(`C:\base\w\f`, []byte("0123456789"), 0o644)
+		if vm, ok := v.(avfs.VolumeManager); ok && r.IntN(3) > 0 {
+			_ = vm.VolumeAdd("E:")
+			_ = v.WriteFile(`E:\f`, []byte("on-e"), 0o644)
+			_ = v.Link(`E:\f`, `C:\w\from-e`)
+			if r.IntN(2) == 0 {
+				_ = v.Chdir(`E:\`)
+			}
+		}
+		return v
+	}
+	switch which % 6 {
+	case 0, 1:
+		return "MemFS/Windows", mk("MemFS")
+	case 2:
+		return "OrefaFS/Windows", mk("OrefaFS")
+	case 3:
+		m := mk("MemFS")
+		v, err := basepathfs.NewWithErr(m, `C:\base`)
+		if err != nil {
+			return "MemFS/Windows", m
+		}
+		return "BasePathFS(MemFS/Windows)", v
+	case 4:
+		return "RoFS(MemFS/Windows)", rofs.New(mk("MemFS"))
+	default:
+		m := mk("MemFS")
+		s, err := m.Sub(`C:\w`)
+		if err != nil {
+			return "MemFS/Windows", m
+		}
+		return "MemFS/Windows.Sub", s
+	}
+}
+
+// c07Windows is the sweep of the Windows-typed instances; it runs in workers built with -tags avfs_setostype.
+func c07Windows(c *rt.Ctx) {
+	hook.Sequential()
+	if avfs.BuildFeatures()&avfs.FeatSetOSType == 0 {
+		c.Rep.Inconclusive = append(c.Rep.Inconclusive, "the Windows-typed part of the sweep runs in a worker built without the avfs_setostype tag")
+		return
+	}
+	c07Paths = c07WinPaths
+	s := &c07Sweep{c: c, called: map[string]bool{}, inSet: map[string]bool{}, skipped: map[string]bool{}}
+	for i := 0; i < c.Pick(600, 6000); i++ {
+		if i%c.NShards != c.Shard {
+			continue
+		}
+		r := c.Rand(fmt.Sprintf("sweep-win-%d", i))
+		name, v := c07WinInstance(r, i)
+		if v.OSType() != avfs.OsWindows {
+			c.Rep.Inconclusive = append(c.Rep.Inconclusive, name+" is not Windows-typed")
+			return
+		}
+		c07SweepOne(s, c, r, i, name, v)
+	}
+	c.Rep.Count("windows_typed_methods_called", int64(len(s.called)))
+	c.Rep.Sample(map[string]any{"kind": "sweep of Windows-typed instances", "targets": "MemFS, OrefaFS, BasePathFS, RoFS, Sub view, with a second volume", "path_domain": c07WinPaths[:16]}, 1)
+}
+
 func c07Handles(name string, v avfs.VFS) []c07Target {
 	var out []c07Target
 	add := func(kind string, f avfs.File) {
@@ -361,7 +516,7 @@ func c07Handles(name string, v avfs.VFS) []c07Target {
 		var f avfs.File
 		func() {
 			defer func() { _ = recover() }()
-			f, _ = v.OpenFile(p, flag, 0o644)
+			f, _ = v.OpenFile(avfs.FromUnixPath(v, p), flag, 0o644)
 		}()
 		return f
 	}
@@ -402,6 +557,7 @@ func c07Helpers(s *c07Sweep, r *rand.Rand, name string, v avfs.VFS, hist *[]stri
 		key := "avfs." + what
 		s.inSet[key] = true
 		verdict, detail := "returns", ""
+		c07Log(key + " on " + name)
 		func() {
 			defer func() {
 				if x := recover(); x != nil {
@@ -485,7 +641,13 @@ func init() {
 			}
 			return 900
 		},
+		OSShards: 2,
 		Run: func(c *rt.Ctx) {
+			c07Guard(c)
+			if os.Getenv("VERIF_PART") == "os" {
+				c07Windows(c)
+				return
+			}
 			// ---- (a) sequential adversarial sweep
 			hook.Sequential()
 			s := &c07Sweep{c: c, called: map[string]bool{}, inSet: map[string]bool{}, skipped: map[string]bool{}}
@@ -496,34 +658,7 @@ func init() {
 				}
 				r := c.Rand(fmt.Sprintf("sweep-%d", i))
 				name, v := c07Instance(r, i)
-				var hist []string
-				if !s.callAll(r, c07Target{name: name, v: reflect.ValueOf(v)}, v, nil, c.Pick(3, 4), &hist) {
-					continue
-				}
-				var files []avfs.File
-				targets := c07Handles(name, v)
-				for _, tg := range targets {
-					if f, ok := tg.v.Interface().(avfs.File); ok {
-						files = append(files, f)
-					}
-				}
-				okAll := true
-				for _, tg := range targets {
-					if !s.callAll(r, tg, v, files, c.Pick(3, 4), &hist) {
-						okAll = false
-						break
-					}
-				}
-				if okAll {
-					c07Helpers(s, r, name, v, &hist)
-				}
-				if i%9 == 8 {
-					idm := memidm.New()
-					s.callAll(r, c07Target{name: "MemIdm", v: reflect.ValueOf(idm)}, v, nil, 6, &hist)
-					if u, err := idm.AddUser("x", "root"); err == nil {
-						s.callAll(r, c07Target{name: "MemUser", v: reflect.ValueOf(u)}, v, nil, 1, &hist)
-					}
-				}
+				c07SweepOne(s, c, r, i, name, v)
 			}
 			c.Rep.Count("methods_in_swept_method_sets", int64(len(s.inSet)))
 			c.Rep.Count("methods_called", int64(len(s.called)))
@@ -536,6 +671,7 @@ func init() {
 			}
 			c.Rep.Sample(map[string]any{"kind": "sweep", "targets": "MemFS, OrefaFS, RoFS(x), BasePathFS(x), FailFS, MemFS.Sub, MemIdm and their File handles", "path_domain": c07Paths[:12]}, 1)
 
+			c07Watched.Store(false)
 			// ---- (a') composite calls failing half-way on permissions, issued by a non-administrator: they and every
 			// later call on the same directories must return (a lock kept on an error path shows up here)
 			for h := 0; h < c.Pick(2000, 40000); h++ {
@@ -552,11 +688,11 @@ func init() {
 			}
 
 			// ---- (a") composite helpers under an injected fault, on files around the buffer sizes: every call returns
-			if c.Shard == 2%c.NShards {
-				c07Faults(c)
-			}
+			c07Watched.Store(true)
+			c07Faults(c)
 
 			// ---- (b) schedules: every worker returns
+			c07Watched.Store(false)
 			sched.Install()
 			st := &c06Stats{inter: map[uint64]bool{}}
 			r := c.Rand("c07-sched")
@@ -730,57 +866,79 @@ func c07SharedHandle(c *rt.Ctx, st *c06Stats, r *rand.Rand) {
 // several primitives on files whose sizes sit around the internal buffer sizes (512 bytes, 32 KiB): whatever they return,
 // they must return (a helper that keeps reading after a failed size probe is a runaway under the sequential hook).
 func c07Faults(c *rt.Ctx) {
-	injected := errors.New("c07-injected")
+	// the injected error is of every class the composites look at (errors.Is ... fs.ErrExist / fs.ErrNotExist /
+	// fs.ErrPermission decide about retries and fallbacks), wrapped as the file systems wrap theirs, or opaque
+	classes := []struct {
+		name string
+		err  error
+	}{
+		{"opaque", errors.New("c07-injected")},
+		{"exist", &fs.PathError{Op: "c07", Path: "/injected", Err: avfs.ErrFileExists}},
+		{"not-exist", &fs.PathError{Op: "c07", Path: "/injected", Err: avfs.ErrNoSuchFileOrDir}},
+		{"permission", &fs.PathError{Op: "c07", Path: "/injected", Err: avfs.ErrPermDenied}},
+		{"eof", io.EOF},
+	}
 	sizes := []int{0, 1, 511, 512, 513, 600, 5000, 32768, 32769, 70000}
+	idx := 0
 	for _, fsType := range []string{"MemFS", "OrefaFS"} {
 		for fn := avfs.FnVFS(1); !strings.HasPrefix(fn.String(), "FnVFS("); fn++ {
-			base := newBase(fsType)
-			_ = base.MkdirAll("/w/d", 0o755)
-			for _, n := range sizes {
-				_ = base.WriteFile(fmt.Sprintf("/w/f%d", n), make([]byte, n), 0o644)
-			}
-			ff := failfs.New(base)
-			fn := fn
-			_ = ff.SetFailFunc(func(_ avfs.VFSBase, f avfs.FnVFS, _ *failfs.FailParam) error {
-				if f == fn {
-					return injected
+			for _, cl := range classes {
+				idx++
+				if idx%c.NShards != c.Shard {
+					continue
 				}
-				return nil
-			})
-			env := fsx.NewEnv(ff)
-			var ops []fsx.Op
-			for _, n := range sizes {
-				p := fmt.Sprintf("/w/f%d", n)
-				ops = append(ops, fsx.Op{K: "ReadFile", P: p}, fsx.Op{K: "Stat", P: p}, fsx.Op{K: "OpenWriteClose", P: p, Flag: syscall.O_WRONLY | syscall.O_APPEND, Data: "x"},
-					fsx.Op{K: "WriteFile", P: p + ".new", Data: "y", Perm: 0o644}, fsx.Op{K: "Truncate", P: p, N: int64(n / 2)})
-			}
-			ops = append(ops, fsx.Op{K: "ReadDir", P: "/w"}, fsx.Op{K: "WalkDir", P: "/w"}, fsx.Op{K: "Glob", P: "/w/*"}, fsx.Op{K: "MkdirAll", P: "/w/d/e/f", Perm: 0o755},
-				fsx.Op{K: "CreateTemp", P: "/w", Q: "t*", H: 7}, fsx.Op{K: "MkdirTemp", P: "/w", Q: "t*"}, fsx.Op{K: "RemoveAll", P: "/w/d"})
-			for _, o := range ops {
-				res := env.Exec(o)
-				c.Rep.Case(fmt.Sprintf("FailFS(%s)|fail=%s|%s|%s", fsType, fn, o.K, res.Err), true)
-				if fatalRes(res) {
-					c.Disagree(fmt.Sprintf("FailFS(%s)|fail=%s|%s|%s", fsType, fn, o.K, res.Err), fmt.Sprintf("FailFS over %s with every %s failing: %s does not return normally: %s", fsType, fn, o, res.Raw), map[string]any{"fs": fsType, "failing": fn.String(), "call": o.String()})
-					break
+				injected := cl.err
+				base := newBase(fsType)
+				_ = base.MkdirAll("/w/d", 0o755)
+				for _, n := range sizes {
+					_ = base.WriteFile(fmt.Sprintf("/w/f%d", n), make([]byte, n), 0o644)
 				}
-			}
-			for _, n := range sizes {
-				p := fmt.Sprintf("/w/f%d", n)
-				for _, hf := range []string{"CopyFile", "HashFile"} {
-					verdict, detail := c07Invoke(reflect.ValueOf(func() {
-						if hf == "CopyFile" {
-							_ = avfs.CopyFile(ff, ff, p+".copy", p)
-						} else {
-							_, _ = avfs.HashFile(ff, p, sha256.New())
-						}
-					}), nil)
-					c.Rep.Case(fmt.Sprintf("FailFS(%s)|fail=%s|%s|%s", fsType, fn, hf, verdict), true)
-					if verdict != "returns" {
-						c.Disagree(fmt.Sprintf("FailFS(%s)|fail=%s|%s|%s", fsType, fn, hf, verdict), fmt.Sprintf("FailFS over %s with every %s failing: %s(%s) %s: %s", fsType, fn, hf, p, verdict, detail), map[string]any{"fs": fsType, "failing": fn.String(), "call": hf + " " + p})
+				ff := failfs.New(base)
+				fn := fn
+				_ = ff.SetFailFunc(func(_ avfs.VFSBase, f avfs.FnVFS, _ *failfs.FailParam) error {
+					// every primitive issued counts against the budget of the call in progress: a composite that retries
+					// for ever on the injected error never reaches a lock site of the base file system
+					fsx.CheckRunaway()
+					if f == fn {
+						return injected
+					}
+					return nil
+				})
+				env := fsx.NewEnv(ff)
+				var ops []fsx.Op
+				for _, n := range sizes {
+					p := fmt.Sprintf("/w/f%d", n)
+					ops = append(ops, fsx.Op{K: "ReadFile", P: p}, fsx.Op{K: "Stat", P: p}, fsx.Op{K: "OpenWriteClose", P: p, Flag: syscall.O_WRONLY | syscall.O_APPEND, Data: "x"},
+						fsx.Op{K: "WriteFile", P: p + ".new", Data: "y", Perm: 0o644}, fsx.Op{K: "Truncate", P: p, N: int64(n / 2)})
+				}
+				ops = append(ops, fsx.Op{K: "ReadDir", P: "/w"}, fsx.Op{K: "WalkDir", P: "/w"}, fsx.Op{K: "Glob", P: "/w/*"}, fsx.Op{K: "MkdirAll", P: "/w/d/e/f", Perm: 0o755},
+					fsx.Op{K: "CreateTemp", P: "/w", Q: "t*", H: 7}, fsx.Op{K: "MkdirTemp", P: "/w", Q: "t*"}, fsx.Op{K: "RemoveAll", P: "/w/d"})
+				for _, o := range ops {
+					res := env.Exec(o)
+					c.Rep.Case(fmt.Sprintf("FailFS(%s)|fail=%s/"+cl.name+"|%s|%s", fsType, fn, o.K, res.Err), true)
+					if fatalRes(res) {
+						c.Disagree(fmt.Sprintf("FailFS(%s)|fail=%s/"+cl.name+"|%s|%s", fsType, fn, o.K, res.Err), fmt.Sprintf("FailFS over %s with every %s failing with a "+cl.name+" error: %s does not return normally: %s", fsType, fn, o, res.Raw), map[string]any{"fs": fsType, "failing": fn.String(), "call": o.String()})
+						break
 					}
 				}
+				for _, n := range sizes {
+					p := fmt.Sprintf("/w/f%d", n)
+					for _, hf := range []string{"CopyFile", "HashFile"} {
+						verdict, detail := c07Invoke(reflect.ValueOf(func() {
+							if hf == "CopyFile" {
+								_ = avfs.CopyFile(ff, ff, p+".copy", p)
+							} else {
+								_, _ = avfs.HashFile(ff, p, sha256.New())
+							}
+						}), nil)
+						c.Rep.Case(fmt.Sprintf("FailFS(%s)|fail=%s/"+cl.name+"|%s|%s", fsType, fn, hf, verdict), true)
+						if verdict != "returns" {
+							c.Disagree(fmt.Sprintf("FailFS(%s)|fail=%s/"+cl.name+"|%s|%s", fsType, fn, hf, verdict), fmt.Sprintf("FailFS over %s with every %s failing with a "+cl.name+" error: %s(%s) %s: %s", fsType, fn, hf, p, verdict, detail), map[string]any{"fs": fsType, "failing": fn.String(), "call": hf + " " + p})
+						}
+					}
+				}
+				env.CloseAll()
 			}
-			env.CloseAll()
 		}
 	}
 }
